@@ -52,6 +52,13 @@ let run_case (fuel : nat) (c : Sexp.t) : (string * Sexp.t * Sexp.t option) optio
      | "get-list" -> model_only (opt (get_list fuel t ss))
      | "get-constant" -> model_only (opt (get_constant fuel t ss))
      | _ -> None)
+  | L [A "goal-ground-term"; A idx; g; ss] ->
+    model_only (sexp_of_res (sexp_of_opt sexp_of_term) (goal_get_ground_term (goal_of g) (nat_of_int (int_of_string idx)) (ss_of ss)))
+  | L [A "op-len"; g] ->
+    model_only (match op_len (goal_of g) with Some n -> L [A "ok"; A (string_of_n n)] | None -> A "not-an-operator")
+  | L [A "op-subgoal"; A idx; g] ->
+    model_only (match op_get_subgoal (goal_of g) (nat_of_int (int_of_string idx)) with
+        | Ok (Some x) -> L [A "ok"; sexp_of_goal x] | Ok None -> A "not-an-operator" | Panic -> A "panic" | OutOfFuel -> A "fuel")
   | L [A "replace"; t; ss] ->
     model_only (sexp_of_res sexp_of_term (replace_variables fuel (term_of t) (ss_of ss)))
   | L [A "bip"; A name; ts; ss] ->
